@@ -194,6 +194,8 @@ class AutoRestartTrick(Trick):
         self._is_trick_stopping = False
         self._stopping_lock = threading.RLock()
         self._restart_lock = threading.Lock()
+        # Watchers that were told to stop when their process was stopped; stop() waits for them.
+        self._retired_watchers: list[ProcessWatcher] = []
 
     def start(self) -> None:
         if self.debounce_interval_seconds:
@@ -215,14 +217,15 @@ class AutoRestartTrick(Trick):
             self.event_debouncer.stop()
         # Wait for a restart that is in flight (it will not start a new process any more).
         with self._restart_lock:
-            process_watcher = self.process_watcher
             self._stop_process()
 
         # Don't leak threads: Wait for background threads to stop.
         if self.event_debouncer is not None:
             self.event_debouncer.join()
-        if process_watcher is not None:
-            process_watcher.join()
+        current_thread = threading.current_thread()
+        for process_watcher in self._retired_watchers:
+            if process_watcher is not current_thread:
+                process_watcher.join()
 
     def _start_process(self) -> None:
         # stop() sets the flag under the same lock: either we see it, or stop() sees our process.
@@ -246,6 +249,8 @@ class AutoRestartTrick(Trick):
         try:
             if self.process_watcher is not None:
                 self.process_watcher.stop()
+                self._retired_watchers = [w for w in self._retired_watchers if w.is_alive()]
+                self._retired_watchers.append(self.process_watcher)
                 self.process_watcher = None
 
             if self.process is not None:
